@@ -23,6 +23,9 @@ Step(e) ==
          ELSE IF ~e.rightClass THEN Fail("TimeoutError")
          ELSE IF e.elapsed * 10 < e.timeout * 8 THEN Fail("TimeoutNotEarly")
          ELSE verdict' = "ok" /\ UNCHANGED <<connected, written, delivered>>
+    [] e.op = "hw" -> IF e.k < 1 \/ e.k > e.n THEN Fail("WriteAtMost")
+                      ELSE IF ~e.prefixOk THEN Fail("PeerGetsWhatWasReported")
+                      ELSE verdict' = "ok" /\ UNCHANGED <<connected, written, delivered>>
     [] e.op = "error" -> Fail(e.clause)
     [] OTHER -> verdict' = "ok" /\ UNCHANGED <<connected, written, delivered>>
 Next ==
